@@ -47,7 +47,8 @@ Inductive srop :=
 | RAddPeer (p : peer) (fsonly : bool) | RRemovePeer (p : peer)
 | RSub (p : peer) (t : topic) | RUnsub (p : peer) (t : topic)
 | RJoin (t : topic) | RLeave (t : topic)
-| RMsg (m : smsg) (chosen : list peer).     (* local publication (sm_from = None) or a message from a peer *)
+| RMsg (m : smsg) (chosen : list peer)      (* local publication (sm_from = None) or a message from a peer *)
+| RLocalOnly (m : smsg).                    (* WithLocalPublication: for the in-process subscribers only *)
 
 Definition set_tm (s : srstate) tm := {| sr_peers := sr_peers s; sr_tmap := tm; sr_joined := sr_joined s; sr_seen := sr_seen s |}.
 
@@ -86,4 +87,9 @@ Definition srstep (rand : bool) (size : nat) (s : srstate) (o : srop) : option (
         | Some rc => Some (s', rc, pubev ++ [TDeliver (sm_id m)] ++ map TSend rc)
         | None => None
         end
+  | RLocalOnly m =>
+      (* the router is never asked: the message is published, delivered in-process once, and goes to nobody *)
+      if memb (sm_id m) (sr_seen s) then Some (s, [], [TPublish (sm_id m)])
+      else Some ({| sr_peers := sr_peers s; sr_tmap := sr_tmap s; sr_joined := sr_joined s; sr_seen := sadd (sm_id m) (sr_seen s) |},
+                 [], [TPublish (sm_id m); TDeliver (sm_id m)])
   end.
